@@ -306,7 +306,7 @@ func judgeC20(add func(string, opRef, string, ...any), r opRef, desc string, op 
 	default:
 		zero = "false"
 	}
-	if got.Raw != zero {
+	if got.Raw != zero && !(zero == "<nil>" && got.Raw == "[]") {
 		add("C20.noitems", r, "%s: returned %s alongside err=%q", where, got.Raw, got.Err)
 	}
 	bound := 64 + 4*pathLen
